@@ -72,30 +72,36 @@ impl Timestamp {
         let ans = match format {
             TimestampFormat::DateTime => time::OffsetDateTime::parse(s, &Rfc3339)?,
             TimestampFormat::HttpDate => time::PrimitiveDateTime::parse(s, RFC1123)?.assume_utc(),
-            TimestampFormat::EpochSeconds => match s.split_once('.') {
-                Some((secs, frac)) => {
-                    let secs: i64 = secs.parse::<u64>()?.try_into().map_err(|_| ParseTimestampError::Overflow)?;
-                    let val: u32 = frac.parse::<u32>()?;
-                    let mul: u32 = match frac.len() {
-                        1 => 100_000_000,
-                        2 => 10_000_000,
-                        3 => 1_000_000,
-                        4 => 100_000,
-                        5 => 10000,
-                        6 => 1000,
-                        7 => 100,
-                        8 => 10,
-                        9 => 1,
-                        _ => return Err(ParseTimestampError::Overflow),
-                    };
-                    let nanos = i128::from(secs) * 1_000_000_000 + i128::from(val * mul);
-                    time::OffsetDateTime::from_unix_timestamp_nanos(nanos)?
-                }
-                None => {
-                    let secs: i64 = s.parse::<u64>()?.try_into().map_err(|_| ParseTimestampError::Overflow)?;
-                    time::OffsetDateTime::from_unix_timestamp(secs)?
-                }
-            },
+            TimestampFormat::EpochSeconds => {
+                // an instant before 1970 is written with a leading minus sign
+                let (negative, t) = match s.strip_prefix('-') {
+                    Some(t) if t.starts_with(|c: char| c.is_ascii_digit()) => (true, t),
+                    Some(_) => return Err(ParseTimestampError::Overflow),
+                    None => (false, s),
+                };
+                let (secs, frac_nanos): (u64, u32) = match t.split_once('.') {
+                    Some((secs, frac)) => {
+                        let val: u32 = frac.parse::<u32>()?;
+                        let mul: u32 = match frac.len() {
+                            1 => 100_000_000,
+                            2 => 10_000_000,
+                            3 => 1_000_000,
+                            4 => 100_000,
+                            5 => 10000,
+                            6 => 1000,
+                            7 => 100,
+                            8 => 10,
+                            9 => 1,
+                            _ => return Err(ParseTimestampError::Overflow),
+                        };
+                        (secs.parse::<u64>()?, val * mul)
+                    }
+                    None => (t.parse::<u64>()?, 0),
+                };
+                let secs: i64 = secs.try_into().map_err(|_| ParseTimestampError::Overflow)?;
+                let nanos = i128::from(secs) * 1_000_000_000 + i128::from(frac_nanos);
+                time::OffsetDateTime::from_unix_timestamp_nanos(if negative { -nanos } else { nanos })?
+            }
         };
         Ok(Self(ans))
     }
@@ -121,14 +127,17 @@ impl Timestamp {
                 self.to_utc()?.format_into(w, RFC1123)?;
             }
             TimestampFormat::EpochSeconds => {
+                // exact decimal text: whole seconds, then the fraction without trailing zeros
                 let val = self.0.unix_timestamp_nanos();
-
-                #[allow(clippy::cast_precision_loss)] // FIXME: accurate conversion?
-                {
-                    let secs = (val / 1_000_000_000) as f64;
-                    let nanos = (val % 1_000_000_000) as f64 / 1_000_000_000.0;
-                    let ts = secs + nanos;
-                    write!(w, "{ts}")?;
+                let sign = if val < 0 { "-" } else { "" };
+                let abs = val.unsigned_abs();
+                let secs = abs / 1_000_000_000;
+                let nanos = abs % 1_000_000_000;
+                if nanos == 0 {
+                    write!(w, "{sign}{secs}")?;
+                } else {
+                    let frac = format!("{nanos:09}");
+                    write!(w, "{sign}{secs}.{}", frac.trim_end_matches('0'))?;
                 }
             }
         }
